@@ -795,3 +795,140 @@ func TestStateMachine(t *testing.T) {
 		})
 	})
 }
+
+// ---------------------------------------------------------------- SetStorage (state override), as its only caller uses it
+
+// TestStateOverride covers StateDB.SetStorage the way internal/kaiapi StateOverride.Apply uses it ("should only be used
+// for debugging"): on a freshly opened state, before any storage access or snapshot, never followed by Finalise or
+// Commit. After it the account's storage must read as exactly the given map; the execution that follows (mutators,
+// nested snapshots and reverts) must satisfy the replay relation and the model.
+func TestStateOverride(t *testing.T) {
+	rapid.Check(t, func(t *rapid.T) {
+		mc := newMachine(t, uni(t, 10, "snaps") < 4, false, false)
+		runCase(t, mc, func() {
+			npre := 1 + uni(t, 10, "npre")
+			for i := 0; i < npre; i++ {
+				o := genMut(t, &mc.m)
+				if i%2 == 0 {
+					o = op{k: opSetState, a: rapid.IntRange(0, NA-1).Draw(t, "a"), s: rapid.IntRange(0, NS-1).Draw(t, "s"), v: 1 + uni(t, 5, "v")}
+				}
+				mc.exec(o)
+			}
+			mc.exec(op{k: opCommit, del: rapid.Bool().Draw(t, "predel"), capLayers: -1, flush: rapid.Bool().Draw(t, "preflush")})
+			mc.override, mc.G = true, nil
+			mc.log = append(mc.log, "override")
+			hidden := false
+			first := rapid.IntRange(0, NA-1).Draw(t, "first")
+			if uni(t, 4, "rich") != 0 { // prefer an account that has committed storage to hide
+				for i := 0; i < NA; i++ {
+					if a := (first + i) % NA; mc.m.acc[a].st != [NS]int{} {
+						first = a
+						break
+					}
+				}
+			}
+			for j, k := 0, 1+uni(t, 2, "naddr"); j < k; j++ {
+				a := (first + j) % NA
+				if rapid.Bool().Draw(t, "ovnonce") {
+					mc.exec(op{k: opSetNonce, a: a, n: uint64(uni(t, 3, "n"))})
+				}
+				if rapid.Bool().Draw(t, "ovcode") {
+					mc.exec(op{k: opSetCode, a: a, code: uni(t, len(codes), "code")})
+				}
+				if rapid.Bool().Draw(t, "ovbal") {
+					mc.exec(op{k: opSetBal, a: a, amt: rapid.SampledFrom(amounts).Draw(t, "amt")})
+				}
+				if uni(t, 4, "diff") == 0 {
+					mc.exec(op{k: opSetState, a: a, s: uni(t, NS, "s"), v: uni(t, len(vals), "v")})
+					continue
+				}
+				o := op{k: opSetStorage, a: a}
+				for s := range o.stor {
+					o.stor[s] = uni(t, len(vals)+4, "sv") - 4
+					if o.stor[s] < -1 {
+						o.stor[s] = -1
+					}
+					if o.stor[s] <= 0 && mc.m.acc[a].st[s] != 0 {
+						hidden = true // a committed slot has to disappear
+					}
+				}
+				mc.exec(o)
+			}
+			n := 1 + uni(t, 24, "n")
+			for i := 0; i < n; i++ {
+				switch w := uni(t, 16, "step"); {
+				case w < 9:
+					mc.exec(genMut(t, &mc.m))
+				case w < 12:
+					mc.exec(op{k: opSnapshot})
+				case w < 15 && len(mc.frames) > 1:
+					mc.exec(op{k: opRevert, j: rapid.IntRange(1, len(mc.frames)-1).Draw(t, "to")})
+				default:
+					mc.exec(op{k: opRead, a: rapid.IntRange(0, NA-1).Draw(t, "a"), s: rapid.IntRange(0, NS-1).Draw(t, "s")})
+				}
+			}
+			oa := mc.checkAll("end of overridden execution")
+			mc.replay("end of overridden execution", oa)
+			classes := []string{"override"}
+			if hidden {
+				classes = append(classes, "override-hides-committed-slot")
+			}
+			if mc.st.reverts > 0 {
+				classes = append(classes, "override-then-revert")
+			}
+			ev.Case(hidden || mc.st.crossed2 > 0, mc.text(), classes...)
+			if hidden && ev.WantSample("override") {
+				ev.Sample("override", mc.text())
+			}
+		})
+	})
+}
+
+// ---------------------------------------------------------------- directed histories (the shapes the property names)
+
+var directed = []struct{ name, script string }{
+	{"create-over-existing keeps balance, drops nonce/code/storage",
+		"snaps=true quiet=false override=false;setbal a0 3;nonce a0 2;code a0 c3;sstore a0 s1 v2;sstore a0 s2 v5;commit del=true flush=true fresh=false cap=-1;" +
+			"prepare 7a0001/1;create a0;read a0 s1;sstore a0 s3 v1;finalise del=true;commit del=true flush=true fresh=true cap=0"},
+	{"create-over-existing reverted: committed storage readable again (cold caches)",
+		"snaps=false quiet=true override=false;setbal a1 1;sstore a1 s0 v4;sstore a1 s3 v3;commit del=true flush=false fresh=false cap=-1;" +
+			"snapshot;create a1;sstore a1 s0 v1;snapshot;suicide a1;revert ->1;read a1 s3;read a1 s0;commit del=true flush=false fresh=false cap=-1"},
+	{"self-destruct, next transaction recreates with new storage",
+		"snaps=true quiet=false override=false;setbal a2 2;sstore a2 s1 v1;code a2 c4;commit del=true flush=false fresh=false cap=-1;" +
+			"prepare 7a0001/1;sstore a2 s2 v2;iroot del=true;prepare 7a0002/2;suicide a2;addbal a2 1;finalise del=true;prepare 7a0003/3;sstore a2 s3 v3;addbal a2 3;" +
+			"commit del=true flush=false fresh=false cap=0"},
+	{"self-destruct and recreate inside one transaction, then revert the recreate",
+		"snaps=false quiet=false override=false;setbal a3 2;sstore a3 s0 v5;commit del=true flush=true fresh=false cap=-1;" +
+			"suicide a3;snapshot;create a3;sstore a3 s0 v1;revert ->1;commit del=true flush=true fresh=false cap=-1"},
+	{"touched empty account: deleted with del=true, kept with del=false, a reverted touch does not delete",
+		"snaps=true quiet=false override=false;addbal a0 0;subbal a1 0;sstore a2 s0 v0;commit del=false flush=false fresh=false cap=-1;" +
+			"addbal a0 0;snapshot;addbal a1 0;revert ->1;finalise del=true;addbal a2 0;finalise del=false;commit del=true flush=false fresh=false cap=1"},
+	{"nested snapshots, revert to the middle one, every journal kind below it",
+		"snaps=false quiet=false override=false;setbal a0 1267650600228229401496703205376;code a1 c2;commit del=true flush=false fresh=false cap=-1;prepare 7a0001/1;" +
+			"snapshot;addbal a0 1;nonce a0 1;snapshot;code a0 c3;sstore a0 s1 v3;create a1;suicide a0;refund+ 3;log a1;preimage s1 c2;acl a2;aclslot a3 s2;tstore a1 s1 v2;addbal a2 0;" +
+			"snapshot;refund- 1;log a0;tstore a1 s1 v0;revert ->2;log a2;revert ->1;commit del=true flush=false fresh=false cap=-1"},
+	{"copy between transactions, both sides move on and commit",
+		"snaps=true quiet=false override=false;setbal a0 2;sstore a0 s0 v1;commit del=true flush=false fresh=false cap=-1;prepare 7a0001/1;sstore a0 s1 v2;code a1 c2;finalise del=true;" +
+			"copy/1[];copy/2[prepare 7a0002/2];sstore a0 s0 v0;suicide a1;copy/0[sstore a0 s1 v5,setbal a1 3,commit del=true flush=false fresh=false cap=-1];commit del=true flush=false fresh=false cap=0"},
+}
+
+func TestDirected(t *testing.T) {
+	for _, d := range directed {
+		sc, err := parseScript(d.script)
+		if err != nil {
+			t.Fatalf("%s: %v", d.name, err)
+		}
+		msg := runScript(sc)
+		if sc.skipped > 0 {
+			t.Fatalf("%s: %d operations of the script are not executable", d.name, sc.skipped)
+		}
+		ev.Case(true, d.script, "directed")
+		if msg != "" {
+			key := "directed"
+			if i := strings.Index(msg, "key="); i >= 0 {
+				key = strings.Fields(msg[i+4:])[0]
+			}
+			ev.Violation(t, key, d.script, "directed history %q: %s", d.name, msg)
+		}
+	}
+}
